@@ -217,6 +217,11 @@ impl<T> ResourceController<T> {
 	pub fn try_reserve(&self) -> Result<Key, ResourceLimitReached> {
 		#[cfg(kira_verif)]
 		crate::verif::yield_point("res.try_reserve");
+		// the arena controller cannot hand out a slot it does not have (and
+		// panics when asked to): a capacity of zero means nothing fits
+		if self.arena_controller.capacity() == 0 {
+			return Err(ResourceLimitReached);
+		}
 		self.arena_controller
 			.try_reserve()
 			.map_err(|_| ResourceLimitReached)
